@@ -382,6 +382,9 @@ def build_file(spec, idl=None, layout=None):
             stats = col.get("statistics")
             if stats == "auto":
                 stats = compute_statistics(leaf, all_actual, nulls)
+            elif stats == "auto-new":
+                # only the fields current writers emit: min_value / max_value (+ null_count), no deprecated min / max
+                stats = {k: v for k, v in compute_statistics(leaf, all_actual, nulls).items() if k not in ("min", "max")}
             if stats and (stats.get("min_value") is not None or stats.get("max_value") is not None):
                 any_minmax = True
             md = {"type": idl.enum_value("Type", leaf.ptype),
